@@ -26,6 +26,7 @@ import (
 	"github.com/lindb/lindb/models"
 	"github.com/lindb/lindb/pkg/compress"
 	"github.com/lindb/lindb/pkg/option"
+	"github.com/lindb/lindb/pkg/timeutil"
 	protoCommonV1 "github.com/lindb/lindb/proto/gen/v1/common"
 	protoReplicaV1 "github.com/lindb/lindb/proto/gen/v1/replica"
 	protoWriteV1 "github.com/lindb/lindb/proto/gen/v1/write"
@@ -109,6 +110,8 @@ func (s *capStream) Recv() (*protoWriteV1.WriteResponse, error) {
 func (s *capStream) Context() context.Context { return s.ctx }
 func (s *capStream) CloseSend() error { s.once.Do(func() { close(s.done) }); return nil }
 
+var chanVariant int
+
 var chanDurations = []struct {
 	text string
 	ms   int64
@@ -128,9 +131,24 @@ func chanRoute(rec *trace.Recorder, cfg *ingestCfg, batch *metric.BrokerBatchRow
 		sum.Unresolved = append(sum.Unresolved, "channel manager does not watch shard states")
 		return
 	}
+	// the write interval is the SMALLEST interval of the option wherever it is listed: rollup intervals of other types
+	// (month: 5m, year: 1h) are listed before or after it
+	ivs := option.Intervals{{Interval: cfg.interval, Retention: cfg.interval * 100000}}
+	chanVariant++
+	if int64(cfg.interval) < 5*60*1000 {
+		r5m := option.Interval{Interval: timeutil.Interval(5 * 60 * 1000), Retention: timeutil.Interval(5 * 60 * 1000 * 100000)}
+		r1h := option.Interval{Interval: timeutil.Interval(3600 * 1000), Retention: timeutil.Interval(3600 * 1000 * 100000)}
+		switch chanVariant % 4 {
+		case 1:
+			ivs = option.Intervals{r1h, r5m, ivs[0]}
+		case 2:
+			ivs = option.Intervals{r5m, ivs[0], r1h}
+		case 3:
+			ivs = option.Intervals{ivs[0], r5m, r1h}
+		}
+	}
 	db := models.Database{Name: "db", NumOfShard: int(cfg.shards), ReplicaFactor: 1,
-		Option: &option.DatabaseOption{Intervals: option.Intervals{{Interval: cfg.interval, Retention: cfg.interval * 100000}},
-			Behind: cfg.behindText, Ahead: cfg.aheadText}}
+		Option: &option.DatabaseOption{Intervals: ivs, Behind: cfg.behindText, Ahead: cfg.aheadText}}
 	shards := map[models.ShardID]models.ShardState{}
 	for i := 0; i < int(cfg.shards); i++ {
 		shards[models.ShardID(i)] = models.ShardState{ID: models.ShardID(i), State: models.OnlineShard, Leader: 1,
